@@ -152,10 +152,29 @@ def seg_ranks(nseg):
     return ranks
 
 
+def selected_segment(I, o, segs, T):
+    """which segment's coefficients a NASA-9 species evaluates at T (through the public getter): index, 'raised',
+    or None when the value mixes segments / uses none"""
+    got = I.call_method(o, 'get_CpoR', [], {'T': T})
+    if isinstance(got, Raised):
+        return 'raised', got
+    if isinstance(got, SumV):
+        got = got.scalar
+    if isinstance(got, ListV) and len(got) == 1:
+        got = got.items[0]
+    if not isinstance(got, Rat):
+        return None, got
+    used = {a.split('[')[0] for a in got.atoms() if '[' in a}
+    idx = [j for j in range(len(segs)) if 's%d' % j in used]
+    return (idx[0] if len(idx) == 1 else None), got
+
+
 def check_get_nasa(run, repo, max_seg):
+    """segment selection of NASA-9 decided through the public getter: the value at T must be built from the
+    coefficients of the segment whose own bounds contain T, and T outside every segment must be refused"""
     ci = repo.cls(NASA + '.Nasa9')
-    owner, fn = repo.find_method(ci, '_get_nasa')
-    run.fn(owner.qual + '._get_nasa')
+    owner, fn = repo.find_method(ci, 'get_CpoR')
+    con = 'nasa.Nasa9._get_nasa'        # construct name kept for the findings of earlier versions
     n_inst = 0
     for nseg in range(1, max_seg + 1):
         positions = [(-5, None, 'below every segment')]
@@ -169,19 +188,19 @@ def check_get_nasa(run, repo, max_seg):
             ranks['T'] = rank
             I = Interp(repo, order=RankOrder(ranks))
             o, segs = nasa9_obj(I, repo, nseg)
-            r = I.call_method(o, '_get_nasa', [], {'T': I.D.sym('T')})
+            sel, r = selected_segment(I, o, segs, I.D.sym('T'))
             key = 'segments:%d %s' % (nseg, label)
             if want is None:
-                run.check(isinstance(r, Raised), 'PATH.refuse', 'nasa.Nasa9._get_nasa', key,
+                run.check(sel == 'raised', 'PATH.refuse', con, key,
                           'a temperature outside every NASA-9 segment must be refused with an exception, '
                           'got %s' % show(r), owner.module, fn,
-                          sample='_get_nasa(T %s) raises' % label)
+                          sample='Nasa9 at T %s raises' % label)
             else:
-                # at a shared boundary either adjacent segment contains T; the code returns the first
-                ok = any(r is segs[k] for k in ({want, want + 1} if 'lower bound' in label and want + 1 < nseg
-                                                and rank == 10 * (want + 1) else {want}))
-                run.check(ok, 'ORDER.segment', 'nasa.Nasa9._get_nasa', key,
-                          'the segment whose bounds contain T must be selected, got %s' % show(r),
+                # at a shared boundary either adjacent segment contains T
+                allowed = {want, want + 1} if 'lower bound' in label and want + 1 < nseg and rank == 10 * (want + 1) \
+                    else {want}
+                run.check(sel in allowed, 'ORDER.segment', con, key,
+                          'the segment whose bounds contain T must be used, got %s' % show(r, 120),
                           owner.module, fn)
             n_inst += 1
     # segments listed in descending order, and segments that leave a gap: the segment is chosen by its own bounds
@@ -192,18 +211,18 @@ def check_get_nasa(run, repo, max_seg):
             I = Interp(repo, order=RankOrder(ranks))
             o, segs = nasa9_obj(I, repo, nseg)
             o.attrs['_nasas'] = ListV(list(reversed(segs)))
-            r = I.call_method(o, '_get_nasa', [], {'T': I.D.sym('T')})
-            run.check(r is segs[j], 'ORDER.segment', 'nasa.Nasa9._get_nasa', 'segments listed in descending order',
+            sel, r = selected_segment(I, o, segs, I.D.sym('T'))
+            run.check(sel == j, 'ORDER.segment', con, 'segments listed in descending order',
                       '[%d segments listed from high to low, T inside segment %d] the segment whose own bounds contain '
-                      'T must be selected, got %s' % (nseg, j, show(r)), owner.module, fn)
+                      'T must be used, got %s' % (nseg, j, show(r, 120)), owner.module, fn)
             n_inst += 1
     ranks = {'seg0.T_low': 0, 'seg0.T_high': 10, 'seg1.T_low': 20, 'seg1.T_high': 30, 'T': 15}
     I = Interp(repo, order=RankOrder(ranks))
     o, segs = nasa9_obj(I, repo, 2)
-    r = I.call_method(o, '_get_nasa', [], {'T': I.D.sym('T')})
-    run.check(isinstance(r, Raised), 'PATH.refuse', 'nasa.Nasa9._get_nasa', 'gap between segments',
+    sel, r = selected_segment(I, o, segs, I.D.sym('T'))
+    run.check(sel == 'raised', 'PATH.refuse', con, 'gap between segments',
               'a temperature in a gap between two segments lies outside every segment and must be refused, got %s'
-              % show(r), owner.module, fn)
+              % show(r, 120), owner.module, fn)
     n_inst += 1
     return n_inst
 
